@@ -211,6 +211,11 @@ func (r *run) playRandom(g *vc.Rng) {
 	}
 	sseq := func(odd bool) int32 {
 		v := int32(2 * g.Intn(1<<24))
+		if g.Intn(4) == 0 {
+			// top bit set: negative as Go int32 / int (0x80000000, 0xfffffffe; odd: 0x80000001, 0xffffffff)
+			v = []int32{-2147483648, -2}[g.Intn(2)]
+			r.highSeq++
+		}
 		if odd {
 			v |= 1
 		}
@@ -250,7 +255,7 @@ func (r *run) playRandom(g *vc.Rng) {
 			acts = append(acts, act{kind: "step", actor: r.rx}, act{kind: "step", actor: r.rx})
 		}
 		if probes > 0 && r.lock != "" && !r.broken {
-			if h := r.sc.Parked(r.lock); h != nil && (h.Point == "idgen" || h.Point == "written") {
+			if h := r.sc.Parked(r.lock); h != nil && (h.Point == "idgen" || h.Point == "wire" || h.Point == "written") {
 				for _, y := range append([]string{r.rx}, callerNames(r)...) {
 					if q := r.sc.Parked(y); y != r.lock && q != nil && q.Point == "prelock" {
 						acts = append(acts, act{kind: "probe", actor: y}, act{kind: "probe", actor: y}, act{kind: "probe", actor: y})
